@@ -6,6 +6,7 @@ package parser
 import (
 	"bufio"
 	"bytes"
+	"fmt"
 	"math"
 	"regexp"
 	"sort"
@@ -129,7 +130,13 @@ func buildinclusionLineMap(parser *Parser, includeFileName string) (inclusionLin
 	index := 0
 	for includeScanner.Scan() {
 		entry := includeScanner.Text()
-		includeMap[entry] = inclusionLine{entry, index}
+		key := entry
+		if strings.HasPrefix(entry, "##!") {
+			// marker and block lines (an include file with prefixes and suffixes is wrapped in a block
+			// with one `##!=>` per affix) are not entries: every one of them is kept, none can be excluded
+			key = fmt.Sprintf("%s\x00%d", entry, index)
+		}
+		includeMap[key] = inclusionLine{entry, index}
 		index++
 	}
 	return includeMap, definitions
